@@ -505,7 +505,7 @@ static Plan gen_plan(uint64_t runseed) {
   if (O.engine == "mem") {
     p.locale = pick_locale(rp, false);
     p.tasks[0].tloc = pick_tloc(runseed, 0, p.locale, false);
-    p.perturb = splitmix64(runseed ^ tag_of("perturb")) % 4 == 0 ? 1 : 0;
+    p.perturb = O.data == "O0" || splitmix64(runseed ^ tag_of("perturb")) % 4 == 0 ? 1 : 0;   // build configuration O0 exists for the partner runs
     cfg.alloc_faults = cfg.file_faults = O.batch == "hist_faults";
     cfg.min_ops = 1;
     cfg.max_ops = rp.chance(1, 3) ? std::min(8, O.max_ops) : O.max_ops;
@@ -1186,7 +1186,7 @@ static void build_strata() {
 static Plan stratum_plan(const Stratum& s, uint64_t runseed) {
   Plan p;
   p.engine = O.engine; p.batch = "strata"; p.data = O.data; p.seed = O.seed; p.runseed = runseed; p.locale = LOC_C;
-  p.perturb = O.engine == "mem" && splitmix64(runseed ^ tag_of("perturb")) % 4 == 0 ? 1 : 0;
+  p.perturb = O.engine == "mem" && (O.data == "O0" || splitmix64(runseed ^ tag_of("perturb")) % 4 == 0) ? 1 : 0;
   p.tasks.push_back(TaskPlan());
   const QueryDef& d = g_queries[s.q];
   Rng r(runseed);
